@@ -91,6 +91,10 @@ class SsbGraphMinimizer:
                     label_indices[op.id] = i
                 self._update_vertex_style(v)
             self._get_edges(g, rtn, rtn_id, label_indices)
+            # Operations that can not be reached from the start of the routine have no edges. They are never written,
+            # but the passes below would still treat them as part of the routine (and the writers start at the
+            # first vertex, whatever is left there).
+            g.delete_vertices([v.index for v in g.vs if v.index != 0 and v.degree() == 0])
 
     def count_labels(self) -> int:
         """Count labels without markers (real labels)"""
@@ -721,6 +725,12 @@ class SsbGraphMinimizer:
                         e = self._reconnect(g, v_before, in_edges[0], v_after, True)
                         e["flow_level"] = e["flow_level"] + 1
                         self._update_edge_style(e)
+                    elif v.index == 0:
+                        # The routine starts with this jump. It is the entry point (the writers start at the first
+                        # vertex), so it has to stay and its target label has to be written.
+                        if len(out_edges) == 1 and isinstance(out_edges[0].target_vertex["op"], SsbLabel):
+                            out_edges[0].target_vertex["op"].force_write = True
+                        continue
                     vs_to_delete.add(v)
             g.delete_vertices(vs_to_delete)
             vs_to_delete = set()
@@ -730,7 +740,8 @@ class SsbGraphMinimizer:
                     in_edges = v.in_edges()
                     out_edges = v.out_edges()
                     if len(in_edges) == 0:
-                        vs_to_delete.add(v)
+                        if v.index != 0:  # the first vertex is the entry point of the routine, it has to stay
+                            vs_to_delete.add(v)
                     elif len(in_edges) == 1:
                         assert len(out_edges) == 1
                         if (
